@@ -3,6 +3,7 @@ import random
 
 from .. import gen
 from .. import harness as H
+from .. import simnet
 from ..ref import http as refhttp
 from ..ref import ws as refws
 
@@ -97,6 +98,13 @@ def cases(tier, seed, i, n):
                 c['close'] = None
                 c['app_closed'] = True
                 yield c
+            if idx % 20 == 13:
+                # connect() is called again on the object (and the new connection used) while this one is still being
+                # iterated - the next connection prepared from a handler, a hand-over between two consumers: the
+                # messages of THIS connection keep arriving on it
+                c = random_case(rnd, idx, tier)
+                c['overlap'] = dict(at=rnd.randint(0, 7), depth=rnd.choice((0, 2, 3, 4, 100)))
+                yield c
             if idx % 25 == 4:
                 # the same kind of sequence on a connection with permessage-deflate negotiated: a conforming
                 # server compresses (window = its own server_max_window_bits, here 15) whatever the client's
@@ -176,6 +184,22 @@ def run_case(case, acc):
             cuts = [c - hl0 + hl for c in cuts]
         acc.count2('oracle', 'compressed_connection_runs')
     w = H.World(H.hs_server(steps, hs), cuts=cuts)
+    if case.get('overlap'):
+        ov = case['overlap']
+        w2 = H.World(H.hs_server([('raw', refws.enc_frame(1, b'<<on connection two>>') + refws.enc_frame(2, b'\x02' * 40) +
+                                   refws.enc_frame(9, b'two')), ('eof',)]), cuts='all' if ov['at'] % 2 else None)
+        st = {}
+
+        def policy(ws_, ev, idx_, run_):     # noqa
+            if idx_ >= ov['at'] and 'g2' not in st:
+                with simnet.Installed(w2):
+                    st['g2'] = g2 = ws_.connect(session_class=simnet.SimSession, ping_rate=0)
+                    try:
+                        for _ in range(ov['depth']):
+                            next(g2)
+                    except (StopIteration, simnet.Quiesced, simnet.BudgetExceeded):
+                        pass
+                acc.count2('oracle', 'runs_overlapped_by_a_second_connect')
     if case.get('cfail'):
         w.frame_faults = {1: case['cfail']}
     run = H.drive(w, ws_kwargs=dict(compress=True) if hs is not None else None, connect_kwargs=dict(ping_rate=0), policy=policy)
@@ -214,6 +238,8 @@ def run_case(case, acc):
         acc.count2('payload_types', t)
     if case['kind'] == 'x4':
         acc.count2('exhaustive4', 'cases')
+    if key and case.get('overlap'):
+        key += ':connection-still-iterated-after-connect-was-called-again'
     if key:
         acc.violation(key, 'C01 %s' % key, case, detail)
     else:
